@@ -229,6 +229,7 @@ def population_key(iout, dout, contact=1):
                 used = iout[ip]; ip += 1
                 p = dout[dp:dp + 3]; dp += 3
                 if contact == 1: ip += 3
+                ip += 1          # "force is zero" flag
                 if used: pos.append(tuple(round(x, 9) for x in p))
             nfu = 0
             for f in range(nf):
